@@ -217,6 +217,47 @@ inline void prop_reg(const vf::Case& c, Ctx& ctx)
                 }
             });
             break;
+        case 12:  // F30: multi-statement setters under a fault at each statement
+            for_schemas(true, true, [&](e::engine_schema sc) {
+                auto db = e::create_temporary_database(sc);
+                auto snap = minimal_snapshot("a/b.mp3");
+                snap.sample_rate = 44100;
+                snap.sample_count = 441000;
+                snap.key = dj::musical_key::a_minor;
+                snap.bpm = 100.0;
+                auto t = db.create_track(snap);
+                std::vector<std::pair<std::string, std::function<void()>>> calls = {
+                    {"set_key", [&] { t.set_key(dj::musical_key::d_minor); }},
+                    {"set_sample_count", [&] { t.set_sample_count(500000ull); }},
+                    {"set_sample_rate", [&] { t.set_sample_rate(48000.0); }},
+                    {"set_bpm", [&] { t.set_bpm(133.25); }},
+                    {"set_relative_path", [&] { t.set_relative_path("x/y.flac"); }},
+                    {"set_last_played_at", [&] { t.set_last_played_at(std::chrono::system_clock::time_point{std::chrono::seconds{1600000000}}); }},
+                };
+                for (auto& kv : calls)
+                    for (uint64_t k = 1; k < 10; ++k)
+                    {
+                        std::string before = observe(db, is_v2(sc));
+                        vfshim::arm(k);
+                        bool threw = false;
+                        try
+                        {
+                            kv.second();
+                        }
+                        catch (const std::exception&)
+                        {
+                            threw = true;
+                        }
+                        bool fired = vfshim::state().fired;
+                        vfshim::disarm();
+                        if (!fired)
+                            break;  // the call has fewer than k statements (and has now succeeded)
+                        VF_CHECK(threw, sname(sc) << ": " << kv.first << " did not report the failure of its statement " << k);
+                        std::string after = observe(db, is_v2(sc));
+                        VF_CHECK(before == after, sname(sc) << ": " << kv.first << " with statement " << k << " failing left a partial update: " << first_diff_line(before, after));
+                    }
+            });
+            break;
         default: break;
     }
 }
